@@ -147,7 +147,54 @@ def cache_additions_ok(s, sm, before):
     return None
 
 
+RAW_SHAPES = {
+    # JSON texts that Python's parser refuses with something other than JSONDecodeError
+    'integer-literal-of-4301-digits': lambda: b'{"jsonrpc":"2.0","method":"blockchain.block.header","params":['
+    + b'9' * 4301 + b'],"id":7}',
+    'integer-literal-of-4300-digits': lambda: b'{"jsonrpc":"2.0","method":"blockchain.block.header","params":['
+    + b'9' * 4300 + b'],"id":7}',
+    'params-nested-100000-deep': lambda: b'{"jsonrpc":"2.0","method":"server.ping","params":'
+    + b'[' * 100000 + b']' * 100000 + b',"id":7}',
+    'params-nested-500-deep': lambda: b'{"jsonrpc":"2.0","method":"server.ping","params":'
+    + b'[' * 500 + b']' * 500 + b',"id":7}',
+}
+
+
+def case_raw(case, res):
+    '''Request texts the JSON layer itself chokes on: the client must get an error reply and
+    the session must go on answering.'''
+    s, other = boot()
+    try:
+        c = s.connect(name='m')
+        c.call('server.version', ['mal', '1.4.2'])
+        n0 = len(c.messages)
+        c.send_raw(RAW_SHAPES[case['raw']]() + b'\n')
+        s.run_idle()
+        res.count('requests')
+        res.count('raw_texts')
+        replies = [m for m in c.messages[n0:] if 'method' not in m]
+        bad = None
+        if not replies:
+            bad = 'no-reply'
+        elif 'error' in replies[0] and isinstance(replies[0]['error'], dict) and \
+                replies[0]['error'].get('code') == INTERNAL_ERROR:
+            bad = 'internal-error'
+        n1 = len(c.messages)
+        c.request('server.ping', [])
+        s.run_idle()
+        if not bad and not any('result' in m for m in c.messages[n1:]):
+            bad = 'session-dead-afterwards'
+        if bad:
+            res.violation(f'{bad}:{case["raw"]}', dict(case), dict(shape=case['raw']))
+        if s.check_tasks():
+            res.violation(f'server-task-died:{case["raw"]}', dict(case), dict(tasks=s.check_tasks()))
+    finally:
+        s.close()
+
+
 def run_case(case, res):
+    if 'raw' in case:
+        return case_raw(case, res)
     method = case['method']
     full, small, tiny = alphabet()
     alpha = {'full': full, 'small': small, 'tiny': tiny}[case['alpha']]
@@ -282,11 +329,12 @@ def cases_for(tier):
                 a = 'small' if arity <= 2 else 'tiny'
                 if arity <= 3:
                     cases.append(dict(method=method, arity=arity, alpha=a, handshake=hs))
+    cases += [dict(raw=name) for name in RAW_SHAPES]
     # the same requests against a server run with the documented DROP_CLIENT setting
-    cases += [dict(c, config='drop') for c in cases if c['method'] == 'server.version']
+    cases += [dict(c, config='drop') for c in cases if c.get('method') == 'server.version']
     # ... and the peer methods against a server with peer discovery on (the default setting)
     cases += [dict(c, config='peers-on') for c in cases
-              if c['method'] in ('server.add_peer', 'server.peers.subscribe', 'server.features')
+              if c.get('method') in ('server.add_peer', 'server.peers.subscribe', 'server.features')
               and 'config' not in c]
     return cases
 
